@@ -292,6 +292,39 @@ theorem C11_order (c : Call) (hthrow : c.throwing = false) (st : St)
   rw [C11_faithful_sources _ hthrow srcArg hAwf, applyAll_append]
   congr 2
 
+/-- **History of a wildcard option.**  For every list of items and every state: the record kept for the
+wildcard option that owns slot `i` is, after all items, exactly the list of the `(key body, value)` assignments
+made to it through any of its patterns, in order (newest first, on top of the initial record) — whatever else the
+list contains (assignments to other options and other slots, queries, unknown keys, errors), and however the
+bodies interleave.  `OnlyPatternKeys`: the option is not also addressed by a plain name/synonym (that route
+would record under the stale `wc_body_last_`). -/
+theorem C11_wildcard_history (cfg : Cfg) (items : List (Item × Bytes)) (i : Nat) (st : St)
+    (hi : i < st.slots.length) (hk : OnlyPatternKeys cfg i items) :
+    ((applyAll cfg items st).slot i).log =
+      (items.filterMap (fun x => wcAssign cfg i x.1)).reverse ++ (st.slot i).log := by
+  induction items generalizing st with
+  | nil => simp [applyAll]
+  | cons x rest ih =>
+    have hk' : OnlyPatternKeys cfg i rest := fun y hy => hk y (by simp [hy])
+    have hx := slot_log_applyItem cfg x.1 st i hi (fun key sep lit d h1 h2 h3 => hk x (by simp) key sep lit d h1 h2 h3)
+    have hcons : applyAll cfg (x :: rest) st = applyAll cfg rest (applyItem cfg x.1 st) := by simp [applyAll]
+    rw [hcons, ih (applyItem cfg x.1 st) (by rw [applyItem_length]; exact hi) hk', hx]
+    cases hw : wcAssign cfg i x.1 with
+    | none => simp [hw]
+    | some e => simp [hw]
+
+/-- **Later overrides earlier, per entry and across spellings.**  What the getter finds for key body `b`
+(`getValue` looks up the newest record with that body) after all items is the value of the LAST assignment made
+to body `b` through any pattern of the option; assignments to other bodies in between do not matter; if there
+was none, the entry is as before. -/
+theorem C11_wildcard_entry_last_wins (cfg : Cfg) (items : List (Item × Bytes)) (i : Nat) (st : St) (b : Bytes)
+    (hi : i < st.slots.length) (hk : OnlyPatternKeys cfg i items) :
+    ((applyAll cfg items st).slot i).log.find? (fun e => e.1 == b) =
+      (((items.filterMap (fun x => wcAssign cfg i x.1)).filter (fun e => e.1 == b)).getLast?).or
+        ((st.slot i).log.find? (fun e => e.1 == b)) := by
+  rw [C11_wildcard_history cfg items i st hi hk]
+  exact find_reverse_append _ _ _
+
 /-- **A later source overrides an earlier one.**  Under the hypotheses of `C11_order`: if the last
 assignment to a plain option `d` among the command-line items is `key [=] lit`, the option's final
 value is `lit`'s, whatever `mp_options` and `<solver>_options` assigned to it (likewise, by the same
@@ -662,6 +695,25 @@ example : ((applyAll cx2Cfg [(.assign [98, 105, 103] { pre := [], eq := true, po
 
 -- option-file lines: comment, blank and indented lines are dropped/trimmed exactly as `ProcessLines_AvoidComments` does
 example : fileLines [35, 32, 99, 10, 10, 32, 32, 98, 105, 103, 61, 52, 50, 10, 32, 9, 10, 102] = [[98, 105, 103, 61, 52, 50], [102]] := by decide
+
+-- wildcard option `o:*` with synonym pattern `p*`: `o:1=5 p2=6 p1=7` records (1,5),(2,6),(1,7); entry 1 ends as 7
+def cx3Decls : List OptDecl := [{ id := 0, name := [111, 58, 42], syns := [[112, 42]], kind := .int }]
+def cx3Cfg : Cfg := { table := buildTable cx3Decls, noEcho := true, cmdLine := false, throwing := false }
+def cx3Items : List (Item × Bytes) :=
+  [(.assign [111, 58, 49] { pre := [], eq := true, post := [] } (.int { sign := none, ds := [53] }), [32]),
+   (.assign [112, 50] { pre := [], eq := true, post := [] } (.int { sign := none, ds := [54] }), [32]),
+   (.assign [112, 49] { pre := [], eq := true, post := [] } (.int { sign := none, ds := [55] }), [])]
+example : cx3Items.filterMap (fun x => wcAssign cx3Cfg 0 x.1) = [([49], .int 5), ([50], .int 6), ([49], .int 7)] := by decide
+example : OnlyPatternKeys cx3Cfg 0 cx3Items := by
+  intro x hx key sep lit d h1 h2 _
+  simp only [cx3Items, List.mem_cons, List.mem_nil_iff, or_false] at hx
+  have e1 : (lookup cx3Cfg.table [111, 58, 49]).map (·.2) = some (some [49]) := by decide
+  have e2 : (lookup cx3Cfg.table [112, 50]).map (·.2) = some (some [50]) := by decide
+  have e3 : (lookup cx3Cfg.table [112, 49]).map (·.2) = some (some [49]) := by decide
+  rcases hx with rfl | rfl | rfl <;> cases h1
+  · rw [h2] at e1; simp at e1
+  · rw [h2] at e2; simp at e2
+  · rw [h2] at e3; simp at e3
 
 -- the former over-read input `x='` and `x='ab`: parsed normally, value = rest of the string
 example : parseStr cxCfg [120, 61, 39] cxSt0 = (.ok, cxSt0) := by
